@@ -1438,6 +1438,8 @@ class Walker:
             return None
         if isinstance(it, tuple) and len(it) == 3 and it[0] == "nt":
             return list(it[2])
+        if is_const(it) and isinstance(it[2], str) and 0 < len(it[2]) <= self.UNROLL_MAX:
+            return [C(ch) for ch in it[2]]  # a constant string: its characters
         if isinstance(it, tuple) and len(it) == 2 and it[0] == "global" and it[1].startswith("class:") and it[1][6:] in self.prog.classes and self.prog.classes[it[1][6:]].is_enum:
             ci_e = self.prog.classes[it[1][6:]]
             return [("enum", ci_e.qualname, nm) for nm in ci_e.enum_members()]
